@@ -1133,6 +1133,65 @@ def work_projadverb(chunk):
     return st.d
 
 
+# part j: a higher-order function projects its own function-valued parameter (x, y or z holds the function; the
+# projection's function position is a parameter name, not a global).  Complete over functions x forms x fixed values;
+# expected: the direct application of the function to the same arguments (substitution), evaluated in the same interpreter.
+HO_FNS = [('sub', '{x-y}', 2), ('cat', '{x,y}', 2), ('pw', '{(10*x)+y}', 2), ('t3', '{x,y,z}', 3)]
+HO_FORMS2 = [       # (program template with F = the function's name, A / B = the two values, expected direct application)
+    ('{[p];p::x(A;);p(B)}(F)', 'F(A;B)'), ('{[p];p::x(;A);p(B)}(F)', 'F(B;A)'),
+    ('{x(A;)@y}(F;B)', 'F(A;B)'), ('{x(;A)@y}(F;B)', 'F(B;A)'),
+    ("{x(A;)'y}(F;[1 2 3])", "{F(A;x)}'[1 2 3]"), ("{x(;A)'y}(F;[1 2 3])", "{F(x;A)}'[1 2 3]"),
+    ("{y(x;)'[1 2 3]}(A;F)", "{F(A;x)}'[1 2 3]"), ('{y(;x)@B}(A;F)', 'F(B;A)'),
+    ('{z(x;)@y}(A;B;F)', 'F(A;B)'), ('{x(A;B)}(F)', 'F(A;B)'), ('{x(A;)}(F)@B', 'F(A;B)'),
+    ('{[p];p::y(x;);p(B)}(A;F)', 'F(A;B)'),
+]
+HO_FORMS3 = [
+    ('{[p q];p::x(A;;);q::p(;B);q(2)}(F)', 'F(A;2;B)'), ('{[p];p::x(;A;);p(1;B)}(F)', 'F(1;A;B)'),
+    ("{x(A;;B)'y}(F;[1 2])", "{F(A;x;B)}'[1 2]"), ('{x(A;;)@y}(F;[2 B])', 'F(A;2;B)'),
+]
+
+
+def ho_items(cfg):
+    vals = [('10', '3'), ('3', '10')] if cfg.quick else [('10', '3'), ('3', '10'), ('-1', '0.5'), ('[1 2]', '7')]
+    out = []
+    for name, body, ar in HO_FNS:
+        for tmpl, direct in (HO_FORMS2 if ar == 2 else HO_FORMS3):
+            for a, b in vals:
+                if ar == 3 and not a.lstrip('-').isdigit():
+                    continue
+                sub = lambda t: t.replace('F', name).replace('A', '(%s)' % a if a[0] == '-' else a).replace('B', '(%s)' % b if b[0] == '-' else b)
+                out.append(([name + '::' + body], sub(tmpl), sub(direct)))
+    return out
+
+
+def work_ho(chunk):
+    st = Stats()
+    for defs, prog, direct in chunk:
+        k = KlongInterpreter()
+        for d in defs:
+            k(d)
+        want = outcome(lambda: k(direct))
+        obs = outcome(lambda: k(prog))
+        st.d['evals'] += len(defs) + 2
+        st.d['calls'] += 1
+        st.d['states'] += 1
+        st.form('projection-of-a-function-valued-parameter')
+        observed = show_outcome(obs)
+        st.d['outcomes'].add(hash(observed))
+        if want[0] != 'ok':
+            continue            # the direct application itself fails: nothing to compare with
+        if obs != want:
+            progs = defs + [prog]
+            # a projection that outlives the call whose parameter it names (returned from the function, completed outside):
+            # the stored function position and arguments are syntax, evaluated when the last hole is filled - the root cause
+            # of the known finding about projection arguments
+            escaped = prog.split('}(')[0].count('@') == 0 and ')@' in prog and '::' not in prog
+            st.violation(';'.join(progs), observed, show_outcome(want) + '   (= ' + direct + ')', dict(part='j', programs=progs),
+                         snippet_for(progs), 'projection-arguments-evaluated-at-call-time' if escaped
+                         else 'projection-of-a-function-valued-parameter')
+    return st.d
+
+
 # part i: a function used BY NAME as the verb of an adverb, the same adverb node evaluated twice (function body called
 # twice / the same program text evaluated twice / a local that holds another function in the next call) with the name
 # bound to another function in between.  Expected: what the substituted function literal gives.
@@ -1329,11 +1388,14 @@ def run(cfg):
     part_h = work_projadverb(items_h)
     items_i = rebind_items()
     part_i = work_rebind(items_i)
+    items_j = ho_items(cfg)
+    part_j = work_ho(items_j)
     t_inline = round(time.time() - t0, 1)
     for name, items, part, wall in (('a', items_a, pooled['a'], t_pool), ('b', items_b, part_b, t_inline),
                                     ('c', items_c, pooled['c'], t_pool), ('d', items_d, part_d, t_inline),
                                     ('e', items_e, part_e, t_inline), ('f', items_f, part_f, t_inline), ('g', items_g, part_g, t_inline),
-                                    ('h', items_h, part_h, t_inline), ('i', items_i, part_i, t_inline)):
+                                    ('h', items_h, part_h, t_inline), ('i', items_i, part_i, t_inline),
+                                    ('j', items_j, part_j, t_inline)):
         parts[name] = dict(items=len(items), wall_s_shared=wall, evals=part.get('evals', 0),
                            calls=part.get('calls', 0),
                            states=part.get('states', 0), violations=len(part.get('violations', [])),
@@ -1376,6 +1438,8 @@ def run(cfg):
                  % (cfg.pick('bodies <= 1 node at nesting depth 1, 2, 3; bodies with 2 nodes at depth 3 with 1 tuple',
                              'every body at nesting depth 1, 2, 3'),
                     len(cfg.pick(FAULT_TUPLES_Q, FAULT_TUPLES_T)), len(BATTERY)),
+            'j': '%d programs in which a function projects its own function-valued parameter (4 functions x 12 / 4 forms x fixed '
+                 'values), compared with the direct application' % len(items_j),
             'h': '%d programs in which a projection with a non-literal fixed argument is completed by an adverb or @' % len(items_h),
             'i': '%d programs: a function used by name as adverb verb (each, over, scan, each-pair, each-2), the same node '
                  'evaluated twice (function called twice / same text twice / local holding another function) with the name '
